@@ -78,26 +78,43 @@ Example C11_reserved_refines_nonvacuous :
      = Some ((3, [Some 1; Some 2; None], Some (Some 1, None)), (0, [], None), (Some false, Some false, Some true), None).
 Proof. split; [exact (c11_somes_tr (c11_rvs_run nat Nat.eqb Nat.ltb 3 ([], [], None) c11_ex_rv_ops) (eq_refl true)) | vm_compute; reflexivity]. Qed.
 
-(* ---- BitSetVector<bs>: PARTIAL.  Full statement (NOT proved; checked only by the correspondence run, 0 disagreements):
-     forall bs >= 1, ops, tr,  c11_bvs_run bs [] ops = map Some tr -> c11_bv_run bs [] ops = map C11_ok tr
-   i.e. every history of resize / clear / setAll / unsetAll / per-block set, reset, flip, assignment from bool, bitset or another
-   block, &=, |=, ^=, <<=, >>= shows the blocks, count() and countmasked(j) of the list of std::bitset<bs>.
-   Missing: the invariants of the per-bit loops (operator=(bitset), getRepr, set()/flip() loops), resize/concat and the counting lemmas.
-   Proved: the addressing core every one of those loops is built from - reading / writing bit j of block i through the one
-   flat vector<bool> reads / writes bit j of the i-th block and leaves all other blocks (and all block lengths) unchanged. *)
-Theorem C11_bitset_addressing_partial :
-  forall (bs : nat) (w : list (list bool)) (i j : nat) (b : list bool) (v : bool),
-    c11_bv_wf bs w -> nth_error w i = Some b -> j < bs ->
-    c11_bv_getBit bs (concat w) i j = C11_ok (nth j b false) /\
-    c11_bv_setBit bs (concat w) i j v = C11_ok (concat (c11_set_nth w i (c11_set_nth b j v))) /\
-    c11_bv_wf bs (c11_set_nth w i (c11_set_nth b j v)).
-Proof. exact c11_bitset_addressing_lemma. Qed.
-Print Assumptions C11_bitset_addressing_partial.
+(* ---- BitSetVector<bs> (one flat vector<bool> + block proxies): for every block size bs >= 1 and every history of resize / clear /
+   setAll / unsetAll / per-block set(j,v), flip(j), set(), reset(), flip(), assignment from bool, from a bitset and from another
+   (or the same) block, &=, |=, ^= with a bitset or a block, <<= and >>= by any count, the model never leaves the vector and shows
+   after EVERY operation exactly the blocks (bit by bit through test()), count() and countmasked(j) for all j < bs of the list of
+   std::bitset<bs> values: each block behaves as a std::bitset<bs> (list of bs bits; shifts fill with zeros) and blocks are
+   independent.  any/none/all/==/~/<</>> /back()/iteration of the const proxy are functions of the observed bits and are
+   cross-checked inside the impl driver only. *)
+Theorem C11_bitset_refines :
+  forall (bs : nat), 0 < bs -> forall (ops : list c11_bv_op) (tr : list c11_bv_obs),
+    c11_bvs_run bs [] ops = map Some tr -> c11_bv_run bs [] ops = map C11_ok tr.
+Proof. exact c11_bitset_refines_lemma. Qed.
+Print Assumptions C11_bitset_refines.
 
-Example C11_bitset_addressing_nonvacuous :
-  c11_bv_wf 3 [[true; false; true]; [false; false; false]] /\
-  c11_bv_setBit 3 (concat [[true; false; true]; [false; false; false]]) 1 2 true = C11_ok [true; false; true; false; false; true].
-Proof. split; [exact (c11_bv_wf_dec 3 [[true; false; true]; [false; false; false]] (eq_refl true)) | vm_compute; reflexivity]. Qed.
+Example C11_bitset_refines_nonvacuous :
+  (exists tr, c11_bvs_run 3 [] c11_ex_bv_ops = map Some tr /\ length tr = length (c11_bvs_run 3 [] c11_ex_bv_ops))
+  /\ nth 5 (c11_bvs_run 3 [] c11_ex_bv_ops) None = Some ([[true; false; true]; [true; false; false]], 3, [2; 0; 1]).
+Proof. split; [exact (c11_somes_tr (c11_bvs_run 3 [] c11_ex_bv_ops) (eq_refl true)) | vm_compute; reflexivity]. Qed.
+
+(* ---- deep observables (compared with the implementation's private members by the optional deep stream of checks/C11.py).
+   ArrayList: after every operation of every history capacity_ = chunks_.size() * chunkSize_, start_ + size_ <= capacity_, and the
+   chunk pointers are null exactly below chunk start_/chunkSize_ (eraseToHere frees exactly the dead leading chunks, purge drops them). *)
+Theorem C11_arraylist_private_state :
+  forall (T : Type) (d : T) (N : nat) (ops : list (c11_al_op T)) (tr : list (c11_al_obs T)),
+    c11_als_run T ([], None) ops = map Some tr ->
+    exists dtr, c11_al_run_deep T d N true (c11_al_empty T, None) ops = map C11_ok dtr /\ length dtr = length tr /\
+                Forall (c11_al_deep_wf N) dtr.
+Proof. exact c11_arraylist_private_state_lemma. Qed.
+Print Assumptions C11_arraylist_private_state.
+
+(* SLList: after every operation of every history tail_ is the last node reachable from beforeHead_ (beforeHead_ itself when
+   empty) and size_ is the number of reachable nodes, for both lists. *)
+Theorem C11_sllist_tail_consistent :
+  forall (T : Type) (d : T) (ops : list (c11_sl_op T)) (tr : list ((bool * bool) * (bool * bool))),
+    c11_spec_run (c11_sls_step T) (fun _ => ((true, true), (true, true))) ([], []) ops = map Some tr ->
+    c11_sl_run_deep T d true (c11_sl_empty T d, c11_sl_empty T d) ops = map C11_ok tr.
+Proof. exact (fun T d => c11_sllist_tail_lemma T d (fun _ _ => true)). Qed.
+Print Assumptions C11_sllist_tail_consistent.
 
 (* ---- refutations of the snapshot code (each witness is replayed on the implementation by checks/C11.py, corpus/C11) *)
 Theorem C11_arraylist_snapshot_refuted :
